@@ -16,7 +16,7 @@ EXPLANATION = (
     'generator, so they see the same set.  Restore\'s separate enumerator is judged under '
     'C20/C08.')
 ASSUMPTIONS = ['a trash entry is the pair files/N + info/N.trashinfo (spec)']
-MINIMUM = {'R09.1': 6, 'R09.2': 4, 'R09.3': 3, 'R09.4': 3}
+MINIMUM = {'R09.1': 6, 'R09.2': 4, 'R09.3': 3, 'R09.4': 3, 'R09.5': 3}
 SUFFIX = '.trashinfo'
 
 
@@ -119,6 +119,35 @@ def check(ctx):
                    kinds == {'payload', 'info'}, construct=bb.func.qualname,
                    text='%s pair %s' % (cmd, sorted(kinds)),
                    message='%s handles only the %s of an entry' % (cmd, sorted(kinds)))
+    # ---- R09.5 per volume both $topdir directories are considered, whatever the
+    # verdict on the other one
+    from .c20 import dir_kind
+    for cmd in ('list', 'empty', 'rm'):
+        bb = ctx.graph(cmd)
+        gg = bb.g
+        probes = [p_ for p_ in bb.probes() if p_.data['role'] == 'isdir' and p_.data['args']
+                  and dir_kind(p_.data['args'][0]) == '$topdir/.Trash-$uid']
+        ctx.ob('R09.5', '%s: the scanner looks at $topdir/.Trash-$uid' % cmd, bool(probes),
+               construct=bb.func.qualname, text='alt dir probe',
+               message='%s never considers $topdir/.Trash-$uid' % cmd)
+        for p_ in probes:
+            head = None
+            for d in gg.dominators(p_.id):
+                dn = gg.n(d)
+                if dn.kind == 'loop' and dn.data.get('kind') == 'for' and dn.func == p_.func \
+                        or (dn.kind == 'loop' and dn.data.get('kind') == 'for' and
+                            gg.n(p_.id).stack[:len(dn.stack)] == dn.stack):
+                    head = dn
+                    break
+            if head is None:
+                continue
+            its = [t for t, l in gg.succ[head.id] if gg.n(t).kind == 'iteration']
+            skipped = its and feasible_path(bb, its, head.id, blocked=[p_.id]) is not None
+            ctx.ob('R09.5', '%s: every volume iteration reaches the $topdir/.Trash-$uid test'
+                   % cmd, not skipped, node=p_,
+                   message='%s: for some verdict on $topdir/.Trash/$uid the scanner moves on '
+                           'to the next volume without looking at $topdir/.Trash-$uid: '
+                           'entries trashed there are not listed / purged' % cmd)
     # ---- R09.4
     scanners = {}
     for cmd in ('list', 'empty', 'rm'):
